@@ -6,6 +6,7 @@ import (
 	"log/slog"
 	"net/http"
 	"net/textproto"
+	"slices"
 	"strconv"
 	"strings"
 	"time"
@@ -237,8 +238,13 @@ func (w *responseWriter) writeHeader(status int) error {
 		if strings.HasPrefix(k, http.TrailerPrefix) {
 			continue
 		}
+		name := strings.ToLower(k)
+		// Connection-specific header fields must not be sent on HTTP/3, see section 4.2 of RFC 9114.
+		// The receiver treats a message containing them as malformed.
+		if slices.Contains(invalidHeaderFields[:], name) {
+			continue
+		}
 		for index := range v {
-			name := strings.ToLower(k)
 			value := v[index]
 			if err := enc.WriteField(qpack.HeaderField{Name: name, Value: value}); err != nil {
 				return err
